@@ -1134,3 +1134,28 @@ def firing_edge_in_impl(ctx):
     ctx.broken("anchor:firing-edge-in-runOnceImpl", "anchor", impl.loc(),
                "runOnceImpl no longer contains the DetectorGroup::check calls (moved into a helper?): the rules about what happens on the firing edge cannot be evaluated")
     return False
+
+
+def saved_context_is_a_copy(ctx, tag):
+    """What a suspended action chain keeps is a COPY of the action context of the tick it fired on: the saved field is an ActionContext
+    by value and ActionContext owns its strings.  (runOnceImpl resets the live context at the end of every tick; anything that merely
+    refers to it is empty - or another group's - on the tick the chain resumes.)  Shared by C06, C07 and C17."""
+    P = ctx.prog
+    st = P.classes.get("Oomd::Engine::Ruleset::AsyncActionChainState")
+    ac = P.classes.get("Oomd::ActionContext")
+    if not st or not ac:
+        ctx.broken("saved-context-is-a-copy", "anchor", "-", "AsyncActionChainState / ActionContext not found")
+        return
+    REF = re.compile(r"&|\*|reference_wrapper|string_view|\bspan\b|_ptr<")
+    f = {x["name"]: x for x in st.get("fields", [])}.get("action_context")
+    if f is None:
+        ctx.broken("saved-context-is-a-copy", "anchor", "-", "AsyncActionChainState has no field action_context (renamed?)")
+        return
+    t = f.get("type", "").replace("const ", "").strip()
+    ctx.check(t in ("Oomd::ActionContext", "ActionContext"), "saved-context-is-a-copy", "E-TYPE (declared type)", "oomd/engine/Ruleset.h:%s" % f.get("line", "?"),
+              "the suspended chain stores an ActionContext by value",
+              "AsyncActionChainState::action_context is declared as %s: it refers to the live context, which runOnceImpl resets at the end of every tick, so a "
+              "chain resumed on a later tick runs with an empty (or another detector group's) ruleset / detector-group name, uuid and prekill deadline" % f.get("type"))
+    bad = [x["name"] + ": " + x.get("type", "") for x in ac.get("fields", []) if REF.search(x.get("type", ""))]
+    ctx.check(not bad, "action-context-owns-its-values", "E-TYPE (declared type)", "oomd/include/Types.h", "ActionContext's fields are values",
+              "ActionContext holds non-owning members (%s): a saved copy still refers to the per-tick objects" % ", ".join(bad))
